@@ -1416,6 +1416,10 @@ func handleClientMessage(c *webClient, m clientMessage) error {
 			},
 		)
 		if err != nil {
+			// AddClient may have granted permissions before
+			// rejecting us
+			c.permissions = nil
+			c.data = nil
 			var e, s string
 			var autherr *group.NotAuthorisedError
 			if errors.Is(err, group.ErrUsernameRequired) {
